@@ -108,6 +108,43 @@ FILES = [
     "do return 1 -- c\n ; end\n",
 ]
 
+# interpolated strings whose hole starts with a table constructor: a space is needed between the two `{`.
+# Comments and white space at every trivia position around the braces.
+def interpolated_table_sources():
+    after_hole_open = [" ", "--[[a]]", " --[[a]] ", "\n", " -- a\n", "--[[a]] "]     # never empty: `{{` is not Lua
+    after_table_open = ["", " ", "--[[first]]", " --[[first]] ", " -- f\n", "\n"]
+    before_table_close = ["", " ", " --[[last]]", "\n", " --[[last]] "]
+    operand = ["", " == nil", " .. 'y'", " :: any", " or {}"]
+    before_hole_close = ["", " ", " --[[z]]", "\n", "--[[z]] "]
+    out = []
+    k = 0
+    for a in after_hole_open:
+        for b in after_table_open:
+            c = before_table_close[k % len(before_table_close)]
+            o = operand[k % len(operand)]
+            d = before_hole_close[(k // 2) % len(before_hole_close)]
+            k += 1
+            hole = "{" + a + "{" + b + "1, 2" + c + "}" + o + d + "}"
+            out.append("local s = `x" + hole + "y`\nreturn s\n")
+    out.append("local s = `{ {--[[first]] 1, 2 } }`\n")
+    out.append("return `{ {--[[k]] a = `{ {--[[n]]} }` } }{ --[[h]]{} }tail`\n")
+    out.append("f(`{ {}--[[after table]] }`, `{--[[only comment]] {}}`)\n")
+    return out
+
+
+# `except` patterns are regular expressions used AS WRITTEN: leading / trailing white space is part of them.
+# Regex features used by this stream (same meaning in Rust `regex` and Python `re`): literals, `^`, `$`, `.`,
+# `[...]` classes, `|`, `+`, `\t` `\n` `\[` `\]` escapes, `(?i)`.
+SPACED_EXCEPTS = [
+    ["^-- "], [" TODO"], ["TODO "], ["\t"], [" "], ["^ "], [" $"], ["   "], ["\\n "], [" \\n"], ["^--\\t"], ["x $"], [" x"],
+    ["^--[^ ]"], [" |\t"], ["\\t$"], ["  +$"], ["^-- $"],
+]
+SPACED_COMMENT_SOURCES = [
+    "--print(a)\n-- prose\n--TODO\n-- TODO x\n--\ttab\n-- trailing \nlocal a = 1 --[[ x ]]\nreturn a --TODO \n",
+    "-- \n--\n--  \n--x \nlocal b = 2 --[[\n x\n]] -- y\t\nreturn b --[[x ]]\n",
+    "local c = { -- TODO first\n  1, --TODO second\n  2, --[==[ TODO\n ]==]\n} --\tTODO\nreturn c\n",
+]
+
 EXCEPTS = [
     [], ["^--!"], ["c2", "end$"], ["keep$"], ["^--\\[=*\\["], ["TODO|FIXME"], ["[0-9]+"], ["."], ["^$"], ["é"], ["(?i)KEEP"],
     ["^-- c$"], ["doc", "x"], ["\\]\\]$"], ["^--[^\\[]"],
@@ -457,6 +494,21 @@ def run(ctx):
     ] + list(G.TYPED_SOURCES)
     sources = [s for s in G.FIXED_SOURCES] + special_sources + gen_sources
     cr_sources = ["-- a\rprint(2)\nprint(1)\n", "print(1) -- a\rprint(2)\r"]
+    for si, s in enumerate(SPACED_COMMENT_SOURCES + gen_sources[:4]):
+        for ei, ex in enumerate(SPACED_EXCEPTS):
+            if quick and si >= len(SPACED_COMMENT_SOURCES) and (si + ei) % 3:
+                continue
+            job("remove_comments", {"except": ex}, cfg([rc(ex)]), s)
+            if (si + ei) % 4 == 0:
+                job("comments+spaces", {"except": ex}, cfg([rc(ex), "remove_spaces"]), s)
+    for si, s in enumerate(interpolated_table_sources()):
+        job("remove_spaces", {}, cfg(["remove_spaces"]), s)
+        job("remove_comments", {"except": []}, cfg([rc([])]), s)
+        job("comments+spaces", {"except": []}, cfg([rc([]), "remove_spaces"]), s)
+        job("spaces+comments", {"except": []}, cfg(["remove_spaces", rc([])]), s)
+        ex = [["first"], ["^--\\[\\[a"], ["z|last"]][si % 3]
+        job("comments+spaces", {"except": ex}, cfg([rc(ex), "remove_spaces"]), s)
+        job("spaces+comments", {"except": ex}, cfg(["remove_spaces", rc(ex)]), s)
     for si, s in enumerate(sources + cr_sources):
         for ei, ex in enumerate(EXCEPTS):
             if quick and (si + ei) % 3 and si >= len(G.FIXED_SOURCES) + len(special_sources) and s not in cr_sources:
